@@ -563,6 +563,10 @@ def set_body(ctx):
                     length = e[4][2][1]
             if e[0] == "assign" and e[3].endswith(".content_length") and "(*_1)" in e[3]:
                 length = e[4]
+            if e[0] == "call" and e[3] in ("std::option::Option::<T>::replace", "std::option::Option::<T>::insert") and len(e[4][2]) == 2:
+                tgt = look(e[4][2][0])
+                if tgt[0] == "field" and tgt[3] == "content_length":
+                    length = ("agg", "std::option::Option", "Some", (e[4][2][1],))      # `length.replace(v)` stores Some(v)
         ok_store = stored is not None and stored[0] == "agg" and stored[2] == "Some" and look(stored[3][0]) == ("arg", 2)
         ok_len = False
         if length is not None and length[0] == "agg" and length[2] == "Some":
@@ -594,7 +598,8 @@ def set_body(ctx):
         ok = len(ev) == 1 and self_field(ev[0][4][2][0], "headers") and look(ev[0][4][2][1]) == ("arg", 2)
         ctx.ob("R05.3", "setter|Response::set_content_length", ok, "Response::set_content_length forwards its argument unchanged to the headers", fp.loc(lf.bb))
     # writers
-    allowed_len = {"response::ResponseHeaders::set_content_length", "<response::ResponseHeaders as std::default::Default>::default", "response::Response::new"}
+    # Response::set_body may also store the length through a helper of its own: what it stores is decided by set_body|length-of-same-body
+    allowed_len = {"response::ResponseHeaders::set_content_length", "<response::ResponseHeaders as std::default::Default>::default", "response::Response::new", "response::Response::set_body"}
     for w in field_writers(facts, RH, "content_length"):
         ctx.ob("R05.3", "writers|content_length|%s" % w[0], writer_roots(facts, w[0]) <= allowed_len, "writer of ResponseHeaders.content_length: %s (%s)" % (w[0], w[3]), w[2])
     allowed_body = {"response::Response::new", "response::Response::set_body"}
@@ -626,7 +631,11 @@ def new_rule(ctx):
         h = r[3][names.index("headers")]
         if not (h[0] == "agg" and h[1] == RH):
             raise AnalysisError("Response::new: headers is not a ResponseHeaders literal")
-        cl = h[3][hnames.index("content_length")]
+        from .util import struct_field_value
+        cl = struct_field_value(facts, h, "content_length")
+        if cl is None:
+            raise AnalysisError("Response::new: content_length cannot be read from the ResponseHeaders literal")
+        cl = look(cl)
         sel = None
         for (t, c, _bb) in lf.conds:
             if t[0] == "discr" and look(t[1]) == ("arg", 2):
